@@ -3,12 +3,14 @@
      [obs |-> <Verify observation of Verifier.tla>, case |-> <how to reproduce it>]
    recorded from the real Verifier.Verify (and Graph.WalkChains on the same graph).  A line is
    accepted iff VerifyReasons(obs) = {}; for every rejected line {"i": line, "why": [...]} is
-   printed.  The last line printed is <<"JUDGED", n>>.                                        *)
+   printed, then {"cover": [...]} - the union of the input-side coverage tags (VerifyCover) -
+   and finally <<"JUDGED", n>>.                                                              *)
 EXTENDS Verifier, Json
 
 Recs == ndJsonDeserialize("verify_obs.ndjson")
 
 ASSUME \A i \in 1..Len(Recs) :
          LET w == VerifyReasons(Recs[i].obs) IN w = {} \/ PrintT(ToJson([i |-> i, why |-> w]))
+ASSUME PrintT(ToJson([cover |-> UNION {VerifyCover(Recs[i].obs) : i \in 1..Len(Recs)}]))
 ASSUME PrintT(<<"JUDGED", Len(Recs)>>)
 =============================================================================
